@@ -142,4 +142,173 @@ theorem lookup_erase_ne {ca ca' : Nat} (h : ca' ≠ ca) (l : List (Nat × Conn))
       · subst hk'; simp [erase, lookup, hk]
       · simp [erase, lookup, hk, hk', ih]
 
+theorem lookup_setConn_eq {ca : Nat} (c : Conn) (l : List (Nat × Conn)) (h : lookup ca l ≠ none) :
+    lookup ca (setConn ca c l) = some c := by
+  induction l with
+  | nil => simp [lookup] at h
+  | cons p l ih =>
+    obtain ⟨k, c'⟩ := p
+    by_cases hk : k = ca
+    · subst hk; simp [setConn, lookup]
+    · simp only [lookup, hk, if_false] at h
+      simp [setConn, lookup, hk, ih h]
+
+def keysOf (l : List (Nat × Conn)) : List Nat := l.map (·.1)
+
+theorem lookup_none_of_not_mem {ca : Nat} {l : List (Nat × Conn)} (h : ca ∉ keysOf l) : lookup ca l = none := by
+  induction l with
+  | nil => rfl
+  | cons p l ih =>
+    obtain ⟨k, c'⟩ := p
+    simp only [keysOf, List.map_cons, List.mem_cons, not_or] at h
+    have hk : ¬ k = ca := fun e => h.1 e.symm
+    simp [lookup, hk, ih h.2]
+
+theorem lookup_erase_eq {ca : Nat} (l : List (Nat × Conn)) (h : (keysOf l).Nodup) :
+    lookup ca (erase ca l) = none := by
+  induction l with
+  | nil => rfl
+  | cons p l ih =>
+    obtain ⟨k, c'⟩ := p
+    simp only [keysOf, List.map_cons, List.nodup_cons] at h
+    by_cases hk : k = ca
+    · subst hk; simp only [erase, if_true]; exact lookup_none_of_not_mem h.1
+    · simp [erase, lookup, hk, ih h.2]
+
+theorem keysOf_setConn (ca : Nat) (c : Conn) (l : List (Nat × Conn)) : keysOf (setConn ca c l) = keysOf l := by
+  induction l with
+  | nil => rfl
+  | cons p l ih =>
+    obtain ⟨k, c'⟩ := p
+    by_cases hk : k = ca
+    · simp [setConn, keysOf, hk]
+    · simp only [setConn, hk, if_false, keysOf, List.map_cons] at ih ⊢; rw [ih]
+
+theorem keysOf_erase_sublist (ca : Nat) (l : List (Nat × Conn)) : (keysOf (erase ca l)).Sublist (keysOf l) := by
+  induction l with
+  | nil => exact List.Sublist.refl _
+  | cons p l ih =>
+    obtain ⟨k, c'⟩ := p
+    by_cases hk : k = ca
+    · simp only [erase, hk, if_true, keysOf, List.map_cons]; exact List.sublist_cons_self _ _
+    · simp only [erase, hk, if_false, keysOf, List.map_cons]; exact List.Sublist.cons_cons _ ih
+
+theorem mem_keysOf_of_lookup {ca : Nat} {l : List (Nat × Conn)} {c : Conn} (h : lookup ca l = some c) :
+    ca ∈ keysOf l := by
+  rcases Classical.em (ca ∈ keysOf l) with hm | hm
+  · exact hm
+  · rw [lookup_none_of_not_mem hm] at h; simp at h
+
+theorem lookup_ne_none_of_mem {ca : Nat} {l : List (Nat × Conn)} (h : ca ∈ keysOf l) : lookup ca l ≠ none := by
+  induction l with
+  | nil => simp [keysOf] at h
+  | cons p l ih =>
+    obtain ⟨k, c'⟩ := p
+    by_cases hk : k = ca
+    · simp [lookup, hk]
+    · simp only [keysOf, List.map_cons, List.mem_cons] at h
+      rcases h with h | h
+      · exact absurd h.symm hk
+      · simp only [lookup, hk, if_false]; exact ih h
+
+theorem lookup_append_single (k ca : Nat) (c : Conn) (l : List (Nat × Conn)) :
+    lookup k (l ++ [(ca, c)]) = match lookup k l with
+      | some x => some x
+      | none => if ca = k then some c else none := by
+  induction l with
+  | nil => simp [lookup]
+  | cons p l ih =>
+    obtain ⟨k', c'⟩ := p
+    by_cases hk : k' = k
+    · simp [lookup, hk]
+    · simp only [List.cons_append, lookup, hk, if_false]; exact ih
+
+/-! ### `serviceReqs` treats every connection by itself -/
+
+/-- all parsers of the table are safe -/
+def AllSafe (l : List (Nat × Conn)) : Prop := ∀ ca c, lookup ca l = some c → Safe c.req.core
+
+theorem reqStepConn_safe {c : Conn} (h : Safe c.req.core) :
+    (reqStepConn c).2 = false ∧ ∀ c', (reqStepConn c).1 = some c' → Safe c'.req.core := by
+  unfold reqStepConn
+  split
+  · exact ⟨rfl, fun c' hc' => by simp at hc'; subst hc'; exact h⟩
+  · have hs := safe_parse h
+    have hnr : parseRaises c.req (parse c.req) = false := by
+      simp [parseRaises, h.2.1, hs.2.1]
+    simp only [hnr, Bool.false_eq_true, if_false]
+    by_cases he : (parse c.req).core.ended = some true
+    · by_cases hx : (parse c.req).core.errored = true
+      · simp [he, hx]
+      · simp only [he, hx, if_true]
+        exact ⟨rfl, fun c' hc' => by simp at hc'; subst hc'; exact hs⟩
+    · simp only [he, if_false]
+      exact ⟨trivial, fun c' hc' => by simp at hc'; subst hc'; exact hs⟩
+
+/-- what one connection becomes in `serviceReqs` -/
+def reqFate (c : Conn) : Option Conn := (reqStepConn c).1
+
+theorem reqStep_spec {v : Valet} {ca : Nat} (hr : v.raised = false) (hs : AllSafe v.conns)
+    (hn : (keysOf v.conns).Nodup) :
+    (v.reqStep ca).raised = false ∧ AllSafe (v.reqStep ca).conns ∧ (keysOf (v.reqStep ca).conns).Nodup ∧
+    (keysOf (v.reqStep ca).conns).Sublist (keysOf v.conns) ∧
+    lookup ca (v.reqStep ca).conns = (lookup ca v.conns).bind reqFate ∧
+    ∀ ca', ca' ≠ ca → lookup ca' (v.reqStep ca).conns = lookup ca' v.conns := by
+  unfold Valet.reqStep
+  simp only [hr, Bool.false_eq_true, if_false]
+  cases hl : lookup ca v.conns with
+  | none => exact ⟨hr, hs, hn, List.Sublist.refl _, by simp [hl], fun _ _ => rfl⟩
+  | some c =>
+    obtain ⟨h2, h1⟩ := reqStepConn_safe (hs ca c hl)
+    simp only []
+    cases hc : reqStepConn c with
+    | mk oc r =>
+      rw [hc] at h1 h2
+      simp only [] at h2
+      subst h2
+      cases oc with
+      | some c' =>
+        simp only []
+        refine ⟨trivial, ?_, by rw [keysOf_setConn]; exact hn, by rw [keysOf_setConn]; exact List.Sublist.refl _, ?_, ?_⟩
+        · intro k ck hk
+          by_cases hkc : k = ca
+          · subst hkc
+            rw [lookup_setConn_eq c' v.conns (by simp [hl])] at hk
+            simp at hk; subst hk; exact h1 c' rfl
+          · rw [lookup_setConn_ne hkc] at hk; exact hs k ck hk
+        · rw [lookup_setConn_eq c' v.conns (by simp [hl])]; simp [reqFate, hc]
+        · intro ca' hne; exact lookup_setConn_ne hne c' v.conns
+      | none =>
+        simp only []
+        refine ⟨trivial, ?_, (keysOf_erase_sublist ca v.conns).nodup hn, keysOf_erase_sublist ca v.conns, ?_, ?_⟩
+        · intro k ck hk
+          by_cases hkc : k = ca
+          · subst hkc; rw [lookup_erase_eq v.conns hn] at hk; simp at hk
+          · rw [lookup_erase_ne hkc] at hk; exact hs k ck hk
+        · rw [lookup_erase_eq v.conns hn]; simp [reqFate, hc]
+        · intro ca' hne; exact lookup_erase_ne hne v.conns
+
+theorem foldl_reqStep_spec : ∀ (ks : List Nat) (v : Valet), ks.Nodup → v.raised = false → AllSafe v.conns →
+    (keysOf v.conns).Nodup →
+    (ks.foldl Valet.reqStep v).raised = false ∧ AllSafe (ks.foldl Valet.reqStep v).conns ∧
+    (keysOf (ks.foldl Valet.reqStep v).conns).Nodup ∧
+    ∀ ca, lookup ca (ks.foldl Valet.reqStep v).conns =
+      if ca ∈ ks then (lookup ca v.conns).bind reqFate else lookup ca v.conns := by
+  intro ks
+  induction ks with
+  | nil => intro v _ hr hs hn; exact ⟨hr, hs, hn, fun ca => by simp⟩
+  | cons k ks ih =>
+    intro v hnd hr hs hn
+    obtain ⟨h1, h2, h3, _, h5, h6⟩ := reqStep_spec (ca := k) hr hs hn
+    have hnd' := List.nodup_cons.mp hnd
+    obtain ⟨i1, i2, i3, i4⟩ := ih (v.reqStep k) hnd'.2 h1 h2 h3
+    simp only [List.foldl_cons]
+    refine ⟨i1, i2, i3, ?_⟩
+    intro ca
+    rw [i4 ca]
+    by_cases hck : ca = k
+    · subst hck
+      simp [hnd'.1, h5]
+    · by_cases hm : ca ∈ ks <;> simp [hm, hck, h6 ca hck]
+
 end Ioflo.Http
